@@ -7,8 +7,13 @@ Texts are single tokens: `␣` stands for a blank, `∅` for the empty string.
 ops
 * `safe <name>`                               → SafeURLString
 * `detect <path>`                             → `<configurationId>|<webhookId>`
-* `hook <id> <kind>|<name>|<outcome> …`       → `ok`   kind = v|m; outcome = `<exit>:<file>` with
+* `hook <id> <kind>|<name>|<outcome> …`       → `ok`   kind = v|m; outcome = `<exit>[+<others>]:<file>` with
      file = `e` empty · `g` malformed · `a;…`/`d;…` valid allowed/denied with `m=<msg>` `w=<w1>~<w2>` `p=<patch>`
+     others = `ok…` / `bad…`: the run's metric / object patch operation files can / cannot be applied
+* `reqout <uid> <outcome>`                    → `ok`   for the request with that uid the hook does this instead
+* `ov start <uid> path=<p>`                   → `started` (a hook run was prepared and its process runs) | `answered`
+* `ov write <uid>` · `ov exit <uid>`          → `ok`   the overlapping run writes its response file · ends
+     (`ov` lines script the interleaving of overlapping requests; the `req` line of such a uid follows later)
 * `req path=<p> body=<ok|garbage|norequest> uid=<u>`  → the answer and who ran (model)
 * `oracle req path=… body=… uid=… ans=<answer…>`      → the property on the observed exchange
 -/
@@ -28,6 +33,10 @@ structure BindingDecl where
 structure St where
   hooks : List Hook := []
   outs : List (Nat × Binding × Outcome) := []
+  reqOuts : List (String × Outcome) := []
+  /-- overlapping runs: uid, run number, hook -/
+  runs : List (String × Nat × Nat) := []
+  fs : FileSt := .init
 
 def parseFile (s : String) : Option FileContent :=
   match s.splitOn ";" with
@@ -47,9 +56,12 @@ def parseFile (s : String) : Option FileContent :=
 def parseOutcome (s : String) : Option Outcome :=
   match s.splitOn ":" with
   | code :: rest =>
-    match code.toNat?, parseFile (String.intercalate ":" rest) with
-    | some c, some f => some ⟨c == 0, f⟩
-    | _, _ => none
+    let (code, others?) : String × Option Bool := match code.splitOn "+" with
+      | [c, o] => (c, if o.startsWith "ok" then some true else if o.startsWith "bad" then some false else none)
+      | _ => (code, some true)
+    match code.toNat?, parseFile (String.intercalate ":" rest), others? with
+    | some c, some f, some o => some ⟨c == 0, f, o⟩
+    | _, _, _ => none
   | _ => none
 
 def parseBinding (s : String) : Option BindingDecl :=
@@ -64,7 +76,33 @@ def parseBinding (s : String) : Option BindingDecl :=
 def runOf (st : St) : Nat → Binding → Outcome := fun h b =>
   match st.outs.find? (fun e => e.1 == h && e.2.1 == b) with
   | some e => e.2.2
-  | none => ⟨false, .empty⟩
+  | none => ⟨false, .empty, true⟩
+
+/-- what the hook was told to do for this request -/
+def declaredRun (st : St) (uid : String) : Nat → Binding → Outcome :=
+  match st.reqOuts.find? (fun e => e.1 == uid) with
+  | some e => fun _ _ => e.2
+  | none => runOf st
+
+def fileName (st : St) : Nat → Nat :=
+  responseFileName perRunResponseFile
+    (fun r => match st.runs.find? (fun e => e.2.1 == r) with
+      | some e => e.2.2
+      | none => 0)
+
+/-- what the run for this request leaves behind according to the model of the response files: as
+declared, except that the response file is what `ResponseFromFile` found at the end of the run -/
+def effectiveRun (st : St) (uid : String) : Nat → Binding → Outcome :=
+  match st.runs.find? (fun e => e.1 == uid) with
+  | some e =>
+    match st.fs.seen e.2.1 with
+    | x :: _ => fun h b => { declaredRun st uid h b with file := seenFile x }
+    | [] => declaredRun st uid
+  | none => declaredRun st uid
+
+def uidOf : Request → String
+  | .ok uid => uid
+  | _ => ""
 
 def showReason : Reason → String
   | .hook m => "hook:" ++ enc m
@@ -155,16 +193,43 @@ def step (st : St) (toks : List String) : St × String :=
       ({ hooks := st.hooks ++ [⟨id, decls.map (·.b)⟩],
          outs := st.outs ++ decls.map (fun d => (id, d.b, d.out)) }, "ok")
     | _, _ => (st, "bad-op")
+  | ["reqout", uid, out] =>
+    match parseOutcome out with
+    | some o => ({ st with reqOuts := st.reqOuts ++ [(dec uid, o)] }, "ok")
+    | none => (st, "bad-op")
+  | ["ov", "start", uid, p] =>
+    match kv? "path" [p] with
+    | none => (st, "bad-op")
+    | some p =>
+      let path := (dec p).toList
+      match route st.hooks (detect path).1 (detect path).2 with
+      | none => (st, "answered")
+      | some (h, _) =>
+        let n := st.runs.length + 1
+        let st := { st with runs := st.runs ++ [(dec uid, n, h)] }
+        ({ st with fs := fileStep (fileName st) st.fs (.prepare n) }, "started")
+  | ["ov", "write", uid] =>
+    match st.runs.find? (fun e => e.1 == dec uid) with
+    | none => (st, "ok")
+    | some e =>
+      -- an `empty` outcome is a hook that does not touch the file
+      match (declaredRun st (dec uid) e.2.2 ⟨.validating, []⟩).file with
+      | .empty => (st, "ok")
+      | c => ({ st with fs := fileStep (fileName st) st.fs (.write e.2.1 c) }, "ok")
+  | ["ov", "exit", uid] =>
+    match st.runs.find? (fun e => e.1 == dec uid) with
+    | none => (st, "ok")
+    | some e => ({ st with fs := fileStep (fileName st) st.fs (.finish e.2.1) }, "ok")
   | "req" :: rest =>
     match parseRequest rest with
     | some (path, req) =>
-      let r := respond st.hooks (runOf st) path req
+      let r := respond st.hooks (effectiveRun st (uidOf req)) path req
       (st, showAnswer r.1 r.2)
     | none => (st, "bad-op")
   | "oracle" :: "req" :: rest =>
     match parseRequest rest, parseObserved st rest with
     | some (path, req), some (ans, ran) =>
-      match checkObs st.hooks (runOf st) path req ans ran with
+      match checkObs st.hooks (declaredRun st (uidOf req)) path req ans ran with
       | none => (st, "true")
       | some why => (st, "false " ++ why)
     | _, _ => (st, "bad-op")
